@@ -52,6 +52,7 @@ type Thread struct {
 	ntouch  int
 	spawned int
 	aborted bool
+	hb      uint64 // happens-before history hash of this thread
 }
 
 type pendingOp struct {
@@ -76,6 +77,10 @@ type Point struct {
 	Chosen  int
 	Running int // thread that was running when the point was reached
 	What    string
+	// Key identifies the partial order of visible operations executed so far
+	// (plus who is waiting for what and the clock): two prefixes that are
+	// linearizations of the same partial order get the same key.
+	Key uint64
 }
 
 type timer struct {
@@ -116,6 +121,10 @@ type Exec struct {
 	mem       map[uintptr]*memCell
 	Log       []string
 	Verbose   bool
+	// FreeSwitches: when the running thread blocks, every enabled thread is a
+	// cost-free continuation (classic preemption bounding) instead of only the
+	// lowest-id one (delay bounding, the default)
+	FreeSwitches bool
 	// NoEarlyTimers: do not offer "the next timer lands now" as a deviation
 	NoEarlyTimers bool
 	selectPick    func(n int) int
@@ -129,8 +138,9 @@ type objInfo struct {
 	// N is shim-owned state of the object for THIS execution (lock held, reader
 	// count, waitgroup counter, ...).  Keeping it here rather than in the object
 	// makes package-level objects start every execution fresh.
-	N [4]int
-	Q []interface{}
+	N  [4]int
+	Q  []interface{}
+	hb uint64 // happens-before history hash of the object
 	// Keep pins the object whose ADDRESS is the key (channels) for the whole
 	// execution, so that the address cannot be reused by a later allocation.
 	Keep interface{}
@@ -241,7 +251,10 @@ func Run(body func(), e *Exec) {
 	// shared labels of this execution
 	e.omu.Lock()
 	defer e.omu.Unlock()
-	for _, oi := range e.objs {
+	for obj, oi := range e.objs {
+		if len(oi.labels) >= 2 && oi.conflicting && os.Getenv("VERIF_SCHED_OBJS") != "" {
+			fmt.Fprintf(os.Stderr, "SCHED-OBJ shared %T %v threads=%v\n", obj, obj, oi.labels)
+		}
 		if len(oi.labels) >= 2 && oi.conflicting {
 			for t, k := range oi.labels {
 				e.SharedOut[fmt.Sprintf("%d/%d", t, k)] = true
@@ -254,6 +267,8 @@ func (e *Exec) newThread(name string, parent *Thread) *Thread {
 	t := &Thread{ID: len(e.threads), Name: name, wake: make(chan struct{}, 1), touch: map[interface{}]int{}}
 	if parent != nil {
 		t.vc = parent.vc.copy()
+		parent.hb = mix(parent.hb, 0x5a5a)
+		t.hb = mix(parent.hb, uint64(parent.spawned)+3)
 	}
 	t.vc = t.vc.tick(t.ID)
 	e.threads = append(e.threads, t)
@@ -480,10 +495,16 @@ func (e *Exec) pickLocked(from *Thread, what string) *Thread {
 			return from
 		}
 		var opts []Option
-		for _, t := range en {
+		for i, t := range en {
 			cost := 0
 			if fromEnabled && t != from {
 				cost = 1 // preempting a thread that could have continued
+			}
+			if !fromEnabled && i > 0 && !e.FreeSwitches {
+				// the running thread blocked or exited: the default is the lowest-id
+				// enabled thread; picking another one is a deviation too (delay
+				// bounding), which keeps the schedule count polynomial in the bound
+				cost = 1
 			}
 			opts = append(opts, Option{Thread: t.ID, Cost: cost, Ready: true})
 		}
@@ -491,12 +512,14 @@ func (e *Exec) pickLocked(from *Thread, what string) *Thread {
 			opts = append(opts, Option{Thread: -1, Cost: 1, Ready: true}) // the next timer lands now
 		}
 		choice := 0
+		var key uint64
 		if len(opts) > 1 {
+			key = e.stateKeyLocked(from, what)
 			choice = e.choose(e, opts, what)
 			if choice < 0 || choice >= len(opts) {
 				panic(fmt.Sprintf("sched: chooser returned %d of %d options", choice, len(opts)))
 			}
-			e.Trace = append(e.Trace, Point{Options: opts, Chosen: choice, Running: from.ID, What: what})
+			e.Trace = append(e.Trace, Point{Options: opts, Chosen: choice, Running: from.ID, What: what, Key: key})
 		}
 		if opts[choice].Thread == -1 {
 			e.advanceLocked()
@@ -667,14 +690,22 @@ func (e *Exec) touchObjRW(t *Thread, obj interface{}, write bool) bool {
 	e.mu.Lock()
 	solo := e.liveCount <= 1
 	e.mu.Unlock()
+	e.omu.Lock()
+	defer e.omu.Unlock()
+	// the ordinal (first-touch order within the thread) is assigned on EVERY
+	// access, so that it depends only on the thread's own control flow
+	k, seen := t.touch[obj]
+	if !seen {
+		k = t.ntouch
+		t.ntouch++
+		t.touch[obj] = k
+	}
 	if solo {
 		// single-threaded phase (set-up before the clients are spawned, checks
 		// after they were joined): ordered with everything else by spawn/join,
 		// so it neither branches nor makes an object "shared"
 		return false
 	}
-	e.omu.Lock()
-	defer e.omu.Unlock()
 	oi := e.objs[obj]
 	if oi == nil {
 		oi = &objInfo{labels: map[int]int{}}
@@ -683,12 +714,7 @@ func (e *Exec) touchObjRW(t *Thread, obj interface{}, write bool) bool {
 	if write {
 		oi.conflicting = true
 	}
-	k, ok := oi.labels[t.ID]
-	if !ok {
-		k = t.ntouch
-		t.ntouch++
-		oi.labels[t.ID] = k
-	}
+	oi.labels[t.ID] = k
 	if e.Shared == nil {
 		return true
 	}
@@ -808,6 +834,77 @@ func ChoiceN(n int, what string) int {
 	}
 	e.Trace = append(e.Trace, Point{Options: opts, Chosen: c, Running: e.cur.ID, What: what})
 	return c
+}
+
+// ---- happens-before hashing (state caching) -----------------------------------
+
+func mix(a, b uint64) uint64 {
+	x := a ^ (b + 0x9e3779b97f4a7c15 + (a << 6) + (a >> 2))
+	x ^= x >> 33
+	x *= 0xff51afd7ed558ccd
+	x ^= x >> 33
+	return x
+}
+
+func strHash(s string) uint64 {
+	var h uint64 = 14695981039346656037
+	for i := 0; i < len(s); i++ {
+		h ^= uint64(s[i])
+		h *= 1099511628211
+	}
+	return h
+}
+
+// Did records that the calling thread completed a visible operation on obj.
+// write=false marks operations that commute with each other on the same
+// object (read-lock acquisition, map reads): they depend on the object's
+// history but do not extend it.
+func Did(obj interface{}, what string, write bool) {
+	t := Current()
+	if t == nil {
+		return
+	}
+	e := Active()
+	e.omu.Lock()
+	oi := e.objs[obj]
+	if oi == nil {
+		oi = &objInfo{labels: map[int]int{}}
+		e.objs[obj] = oi
+	}
+	if oi.hb == 0 {
+		oi.hb = 1
+	}
+	h := mix(mix(t.hb, oi.hb), strHash(what))
+	t.hb = h
+	if write {
+		oi.hb = mix(oi.hb, h)
+	}
+	e.omu.Unlock()
+}
+
+// stateKeyLocked hashes the global state as seen at a scheduling point.
+func (e *Exec) stateKeyLocked(from *Thread, what string) uint64 {
+	k := uint64(len(e.threads))
+	for _, t := range e.threads {
+		th := t.hb
+		if t.done {
+			th = mix(th, 0xdead)
+		} else if t.pending != nil {
+			th = mix(th, strHash(t.pending.what))
+			if t.pending.kind == opSleep {
+				th = mix(th, uint64(t.pending.until.UnixNano()))
+			}
+		}
+		k = mix(k, mix(uint64(t.ID)+1, th))
+	}
+	k = mix(k, uint64(e.clock.UnixNano()))
+	for _, tm := range e.timers {
+		if tm.live {
+			k = mix(k, uint64(tm.due.UnixNano()))
+		}
+	}
+	k = mix(k, uint64(from.ID)+77)
+	return k
 }
 
 // ---- vector clocks and races ---------------------------------------------------
